@@ -471,6 +471,16 @@ impl<'a> ReMatcher<'a> {
             .set_paren_end(group_nr, position)
     }
 
+    pub(crate) fn restore_paren(&self, group_nr: usize, start: Option<usize>, end: Option<usize>) {
+        let mut state = self.state.borrow_mut();
+        if group_nr < state.capture_state.startn.len() {
+            state.capture_state.startn[group_nr] = start;
+        }
+        if group_nr < state.capture_state.endn.len() {
+            state.capture_state.endn[group_nr] = end;
+        }
+    }
+
     pub(crate) fn clear_captured_groups_beyond(&self, pos: usize) {
         for i in 0..self.startn_len() {
             let start = self.capture_state_startn(i);
